@@ -52,6 +52,10 @@ theorem canonFromB_iff (lo : Nat) (rs : List Rng) : canonFromB lo rs = true ↔ 
 
 theorem canonB_iff (rs : List Rng) : canonB rs = true ↔ Canon rs := canonFromB_iff 0 rs
 
+instance (lo : Nat) (rs : List Rng) : Decidable (CanonFrom lo rs) :=
+  decidable_of_iff _ (canonFromB_iff lo rs)
+instance (rs : List Rng) : Decidable (Canon rs) := inferInstanceAs (Decidable (CanonFrom 0 rs))
+
 /-- **Unique normal form.** Two canonical range lists covering the same set are equal. -/
 theorem CanonFrom.ext {lo : Nat} {a b : List Rng} (ha : CanonFrom lo a) (hb : CanonFrom lo b)
     (h : ∀ x, mem x a ↔ mem x b) : a = b := by
